@@ -1,1 +1,282 @@
-fn main() {}
+//! Bevy harness: drives a real `App` with mina's plugin under a hand-driven clock and logs
+//! every frame (leg B, `drive`); re-evaluates the real timelines at the points the
+//! specification says the components were evaluated (`judge`).
+use bevy::ecs::event::{Events, ManualEventReader};
+use bevy::prelude::*;
+use bevy_mina::prelude::*;
+use mina::prelude::*;
+use serde_json::{json, Value};
+use std::io::{BufRead, Write};
+use std::time::{Duration, Instant};
+
+#[derive(Animate, Component, Clone, Debug, Default, PartialEq)]
+struct A { x: f32, y: f32 }
+#[derive(Animate, Component, Clone, Debug, Default, PartialEq)]
+struct B { x: f32, y: f32 }
+#[derive(Clone, Copy, Debug, Default, Eq, PartialEq, Hash)]
+enum K { #[default] K1, K2, K3 }
+fn key(i: i64) -> K { match i { 1 => K::K1, 2 => K::K2, 3 => K::K3, _ => panic!("key") } }
+fn key_no(k: &K) -> i64 { match k { K::K1 => 1, K::K2 => 2, K::K3 => 3 } }
+
+const TICK: f32 = 0.125;
+
+/// Timeline pool shared by id between the trace (which carries delay/total in ticks) and the judge.
+/// (cycle, delay, repeat (-1 none, n, -2 infinite), reverse, shape)
+const POOL: [(i64, i64, i64, bool, u8); 10] = [
+    (8, 0, -1, false, 0), (8, 4, -1, false, 1), (4, 2, 1, false, 0), (4, 0, -2, false, 2), (6, 3, 0, true, 1),
+    (2, 0, 2, true, 2), (16, 8, -1, false, 3), (1, 0, -1, false, 0), (3, 1, 1, true, 3), (8, 0, -1, false, 4),
+];
+fn pool_total(i: usize) -> i64 { let (c, d, r, _, _) = POOL[i]; if r == -2 { 1_000_000_000 } else { d + c * (r.max(0) + 1) } }
+fn rep(r: i64) -> Repeat { match r { -1 => Repeat::None, -2 => Repeat::Infinite, n => Repeat::Times(n as u32) } }
+
+macro_rules! pool_tl { ($T:ident, $id:expr) => {{
+    let (c, d, r, rev, shape) = POOL[($id - 1) as usize];
+    let b = $T::timeline().duration_seconds(c as f32 * TICK).delay_seconds(d as f32 * TICK).repeat(rep(r)).reverse(rev);
+    match shape {
+        0 => b.keyframe($T::keyframe(1.0).x(64.0)),
+        1 => b.keyframe($T::keyframe(0.0).x(8.0).y(1.0)).keyframe($T::keyframe(1.0).x(40.0).y(5.0)),
+        2 => b.default_easing(Easing::OutQuad).keyframe($T::keyframe(0.5).x(16.0)).keyframe($T::keyframe(1.0).x(-24.0)),
+        3 => b.keyframe($T::keyframe(0.25).y(12.0)).keyframe($T::keyframe(0.75).x(30.0).easing(Easing::InOutCubic)).keyframe($T::keyframe(1.0).y(3.0)),
+        _ => b.keyframe($T::keyframe(0.0).x(100.0)).keyframe($T::keyframe(1.0).x(0.0)),
+    }.build()
+}}; }
+
+struct Rng(u64);
+impl Rng {
+    fn next(&mut self) -> u64 { self.0 ^= self.0 << 13; self.0 ^= self.0 >> 7; self.0 ^= self.0 << 17; self.0 }
+    fn below(&mut self, n: u64) -> u64 { self.next() % n }
+}
+
+fn st_no(s: AnimationState) -> i64 { match s { AnimationState::None => 0, AnimationState::Waiting => 1, AnimationState::Playing => 2, AnimationState::Ended => 3 } }
+fn ticks(d: Duration) -> i64 { let n = d.as_nanos() as i64; assert!(n % 125_000_000 == 0, "position off the tick grid: {d:?}"); n / 125_000_000 }
+fn bits(x: f32, y: f32) -> [i64; 2] { [x.to_bits() as i64, y.to_bits() as i64] }
+
+struct WorldRun { app: App, e: Entity, now: Instant, reader: ManualEventReader<AnimationStateChanged>, hassel: bool, hasb: bool }
+
+fn new_world(cfg: &Value) -> WorldRun {
+    let hassel = cfg["hassel"].as_bool().unwrap();
+    let hasb = cfg["hasb"].as_bool().unwrap();
+    let mut app = App::new();
+    app.insert_resource(Time::default());
+    app.add_plugins(AnimationPlugin::<A>::new());
+    if hasb { app.add_plugins(AnimationPlugin::<B>::new()); }
+    if hassel { app.register_animation_key::<A, K>(); }
+    let now = Instant::now();
+    app.world.resource_mut::<Time>().update_with_instant(now);
+    let a0 = A { x: -3.0, y: -5.0 };
+    let mut ent = app.world.spawn(a0);
+    let en_a = cfg["enA"].as_bool().unwrap();
+    if hassel {
+        let mut sb = AnimationSelectorBuilder::<K, A>::new().initial_key(key(cfg["key0"].as_i64().unwrap()));
+        for (i, t) in cfg["keytl"].as_array().unwrap().iter().enumerate() {
+            let id = t.as_i64().unwrap();
+            if id != 0 { sb = sb.add(key(i as i64 + 1), pool_tl!(A, id)); }
+        }
+        let mut cb = AnimationChainBuilder::<K>::new();
+        for (i, n) in cfg["chain"].as_array().unwrap().iter().enumerate() {
+            let n = n.as_i64().unwrap();
+            if n != 0 { cb = cb.add(key(i as i64 + 1), key(n)); }
+        }
+        let an = if en_a { Animator::<A>::new() } else { Animator::<A>::new().as_disabled() };
+        ent.insert((an, sb.build(), cb.build()));
+    } else {
+        let id = cfg["tlA"].as_i64().unwrap();
+        let an = if id == 0 { Animator::<A>::new() } else { Animator::<A>::with_timeline(pool_tl!(A, id)) };
+        ent.insert(if en_a { an } else { an.as_disabled() });
+    }
+    if hasb {
+        let id = cfg["tlB"].as_i64().unwrap();
+        ent.insert((B { x: -7.0, y: -9.0 }, if id == 0 { Animator::<B>::new() } else { Animator::<B>::with_timeline(pool_tl!(B, id)) }));
+    }
+    let e = ent.id();
+    WorldRun { app, e, now, reader: ManualEventReader::default(), hassel, hasb }
+}
+
+impl WorldRun {
+    fn apply_op(&mut self, op: &Value) {
+        let e = self.e;
+        match op["op"].as_str().unwrap() {
+            "key" => { self.app.world.get_mut::<AnimationSelector<K, A>>(e).unwrap().timeline_key = key(op["k"].as_i64().unwrap()); }
+            "enable" => { let b = op["b"].as_bool().unwrap();
+                if op["T"] == "A" { self.app.world.get_mut::<Animator<A>>(e).unwrap().enabled = b; } else { self.app.world.get_mut::<Animator<B>>(e).unwrap().enabled = b; } }
+            "reset" => { if op["T"] == "A" { self.app.world.get_mut::<Animator<A>>(e).unwrap().reset(); } else { self.app.world.get_mut::<Animator<B>>(e).unwrap().reset(); } }
+            "settl" => { let id = op["id"].as_i64().unwrap();
+                if op["T"] == "A" { self.app.world.get_mut::<Animator<A>>(e).unwrap().set_timeline(pool_tl!(A, id)); }
+                else { self.app.world.get_mut::<Animator<B>>(e).unwrap().set_timeline(pool_tl!(B, id)); } }
+            o => panic!("op {o}"),
+        }
+    }
+    fn frame(&mut self, dt: i64) -> Value {
+        self.now += Duration::from_secs_f32(dt as f32 * TICK);
+        let n = self.now;
+        self.app.world.resource_mut::<Time>().update_with_instant(n);
+        self.app.update();
+        let w = &self.app.world;
+        let a = w.get::<Animator<A>>(self.e).unwrap();
+        let ca = w.get::<A>(self.e).unwrap();
+        let mut rec = json!({"ev": "frame", "dt": dt, "A": [st_no(a.state()), ticks(a.timeline_position), a.enabled as i64], "compA": bits(ca.x, ca.y)});
+        if self.hasb {
+            let b = w.get::<Animator<B>>(self.e).unwrap();
+            let cb = w.get::<B>(self.e).unwrap();
+            rec["B"] = json!([st_no(b.state()), ticks(b.timeline_position), b.enabled as i64]);
+            rec["compB"] = json!(bits(cb.x, cb.y));
+        } else { rec["B"] = json!([0, 0, 1]); rec["compB"] = json!([0, 0]); }
+        rec["key"] = json!(if self.hassel { key_no(&w.get::<AnimationSelector<K, A>>(self.e).unwrap().timeline_key) } else { 0 });
+        let events = w.resource::<Events<AnimationStateChanged>>();
+        let out: Vec<i64> = self.reader.iter(events).filter(|ev| ev.entity == self.e).map(|ev| st_no(ev.state)).collect();
+        rec["out"] = json!(out);
+        rec
+    }
+}
+
+fn world_cfg(rng: &mut Rng, wi: u64) -> Value {
+    let np = POOL.len() as u64;
+    let tl: Vec<Value> = (0..POOL.len()).map(|i| json!([POOL[i].1, pool_total(i)])).collect();
+    let hassel = wi % 2 == 1;
+    let hasb = hassel && rng.below(3) != 0;
+    let keytl: Vec<i64> = (0..3).map(|_| if rng.below(5) == 0 { 0 } else { 1 + rng.below(np) as i64 }).collect();
+    let chain: Vec<i64> = (0..3).map(|_| if rng.below(2) == 0 { 0 } else { 1 + rng.below(3) as i64 }).collect();
+    json!({"ev": "world", "tl": tl, "keytl": keytl, "chain": chain, "hassel": hassel, "hasb": hasb,
+           "tlA": if rng.below(8) == 0 { 0 } else { 1 + rng.below(np) as i64 }, "tlB": 1 + rng.below(np) as i64,
+           "key0": 1 + rng.below(3) as i64, "enA": rng.below(6) != 0})
+}
+
+fn drive(seed: u64, nworlds: u64, nframes: u64, out: &str) -> Value {
+    let mut rng = Rng(seed.wrapping_mul(0x9E3779B97F4A7C15) | 1);
+    let mut f = std::io::BufWriter::new(std::fs::File::create(out).unwrap());
+    let (mut frames, mut ops) = (0u64, 0u64);
+    let mut sample = vec![];
+    for wi in 0..nworlds {
+        let cfg = world_cfg(&mut rng, wi);
+        writeln!(f, "{}", cfg).unwrap();
+        let mut w = new_world(&cfg);
+        let (hassel, hasb) = (w.hassel, w.hasb);
+        for _ in 0..nframes {
+            // user operations between frames
+            if rng.below(4) == 0 {
+                let op = match rng.below(if hassel { 6 } else { 5 }) {
+                    0 => json!({"ev":"op","op":"enable","T":"A","b": rng.below(2) == 0}),
+                    1 => json!({"ev":"op","op":"reset","T": if hasb && rng.below(2) == 0 { "B" } else { "A" }}),
+                    2 if !hassel => json!({"ev":"op","op":"settl","T":"A","id": 1 + rng.below(POOL.len() as u64)}),
+                    2 | 3 if hassel => json!({"ev":"op","op":"key","k": 1 + rng.below(3)}),
+                    3 if hasb => json!({"ev":"op","op":"settl","T":"B","id": 1 + rng.below(POOL.len() as u64)}),
+                    4 if hasb => json!({"ev":"op","op":"enable","T":"B","b": rng.below(2) == 0}),
+                    5 => json!({"ev":"op","op":"key","k": 1 + rng.below(3)}),
+                    _ => json!({"ev":"op","op":"enable","T":"A","b": true}),
+                };
+                w.apply_op(&op);
+                writeln!(f, "{}", op).unwrap();
+                ops += 1;
+            }
+            let dt = [0, 1, 1, 2, 3, 3, 8, 1000][rng.below(8) as usize];
+            let rec = w.frame(dt);
+            if sample.len() < 4 && frames % 7 == 3 { sample.push(json!({"world": cfg, "frame": rec})); }
+            writeln!(f, "{}", rec).unwrap();
+            frames += 1;
+        }
+    }
+    f.flush().unwrap();
+    json!({"worlds": nworlds, "frames": frames, "ops": ops, "samples": sample})
+}
+
+/// Leg A: runs TLC-enumerated input schedules (REPLAY lines of MC_Bevy) in real Apps and logs them.
+fn drive_file(inp: &str, out: &str) -> Value {
+    let mut f = std::io::BufWriter::new(std::fs::File::create(out).unwrap());
+    let (mut worlds, mut frames, mut ops) = (0u64, 0u64, 0u64);
+    for l in std::io::BufReader::new(std::fs::File::open(inp).unwrap()).lines() {
+        let l = l.unwrap();
+        let Some(rest) = l.trim().strip_prefix("<<\"REPLAY\", ") else { continue };
+        let inner: String = serde_json::from_str(rest.strip_suffix(">>").unwrap()).unwrap();
+        let v: Value = serde_json::from_str(&inner).unwrap();
+        let c = &v["c"];
+        let tl: Vec<Value> = c["c"]["TL"].as_array().unwrap().iter().map(|t| json!([t["del"], t["tot"]])).collect();
+        for (i, t) in tl.iter().enumerate() { assert!(t[0] == POOL[i].1 && t[1] == pool_total(i), "spec timeline table differs from the harness pool"); }
+        let cfg = json!({"ev": "world", "tl": tl, "keytl": c["c"]["KeyTl"], "chain": c["c"]["ChainNext"], "hassel": c["c"]["HasSel"], "hasb": c["c"]["HasB"],
+                         "tlA": c["tlA"], "tlB": c["tlB"], "key0": c["key0"], "enA": true});
+        writeln!(f, "{}", cfg).unwrap();
+        worlds += 1;
+        let mut w = new_world(&cfg);
+        for op in v["ops"].as_array().unwrap() {
+            if op["ev"] == "op" { w.apply_op(op); writeln!(f, "{}", op).unwrap(); ops += 1; }
+            else { let rec = w.frame(op["dt"].as_i64().unwrap()); writeln!(f, "{}", rec).unwrap(); frames += 1; }
+        }
+    }
+    f.flush().unwrap();
+    json!({"worlds": worlds, "frames": frames, "ops": ops, "samples": []})
+}
+
+/// Re-evaluates the real timelines at the evaluation identities predicted by the surviving
+/// behaviours of Trace_Bevy (PRED lines) and compares with the logged component bits.
+fn judge(trace: &str, preds: &str) -> Value {
+    let recs: Vec<Value> = std::io::BufReader::new(std::fs::File::open(trace).unwrap()).lines().map(|l| serde_json::from_str(&l.unwrap()).unwrap()).collect();
+    // split into worlds
+    let mut worlds: Vec<(Value, Vec<Value>)> = vec![];
+    for r in recs { if r["ev"] == "world" { worlds.push((r, vec![])); } else if r["ev"] == "frame" { worlds.last_mut().unwrap().1.push(r); } }
+    let mut by_world: std::collections::BTreeMap<u64, Vec<Value>> = Default::default();
+    for l in std::io::BufReader::new(std::fs::File::open(preds).unwrap()).lines() {
+        let l = l.unwrap();
+        if let Some(rest) = l.trim().strip_prefix("<<\"PRED\", ") {
+            let inner: String = serde_json::from_str(rest.strip_suffix(">>").unwrap()).unwrap();
+            let v: Value = serde_json::from_str(&inner).unwrap();
+            by_world.entry(v["world"].as_u64().unwrap()).or_default().push(v);
+        }
+    }
+    let (mut checked, mut evals) = (0u64, 0u64);
+    let mut mism = vec![];
+    for (wi, (cfg, frames)) in worlds.iter().enumerate() {
+        let cands = by_world.get(&(wi as u64 + 1)).cloned().unwrap_or_default();
+        if cands.is_empty() { mism.push(json!({"world": wi + 1, "what": "no surviving behaviour predicted this world"})); continue; }
+        let mut first_fail = None;
+        let mut ok_any = false;
+        for cand in &cands {
+            let pred = cand["pred"].as_array().unwrap();
+            let mut fail = None;
+            let (mut pa, mut pb) = ([(-3.0f32).to_bits() as i64, (-5.0f32).to_bits() as i64], [(-7.0f32).to_bits() as i64, (-9.0f32).to_bits() as i64]);
+            let mut hist_a = vec![pa]; // hist_a[f] = component A before frame f+1 (= after frame f)
+            let (mut prev_ca, mut prev_cb) = (json!(["init"]), json!(["init"]));
+            for (fi, fr) in frames.iter().enumerate() {
+                let (ca, cb) = (&pred[fi]["A"], &pred[fi]["B"]);
+                let got_a = [fr["compA"][0].as_i64().unwrap(), fr["compA"][1].as_i64().unwrap()];
+                let got_b = [fr["compB"][0].as_i64().unwrap(), fr["compB"][1].as_i64().unwrap()];
+                let mut exp_a = pa;
+                if *ca != prev_ca {
+                    let c = ca.as_array().unwrap();
+                    let mut tl = pool_tl!(A, c[1].as_i64().unwrap());
+                    let ovf = c[2].as_i64().unwrap();
+                    if ovf >= 0 { let s = hist_a[(ovf - 1) as usize]; tl.start_with(&A { x: f32::from_bits(s[0] as u32), y: f32::from_bits(s[1] as u32) }); }
+                    let mut v = A { x: f32::from_bits(pa[0] as u32), y: f32::from_bits(pa[1] as u32) };
+                    tl.update(&mut v, c[3].as_i64().unwrap() as f32 * TICK);
+                    exp_a = bits(v.x, v.y); evals += 1;
+                }
+                let mut exp_b = pb;
+                if cfg["hasb"].as_bool().unwrap() && *cb != prev_cb {
+                    let c = cb.as_array().unwrap();
+                    let tl = pool_tl!(B, c[1].as_i64().unwrap());
+                    let mut v = B { x: f32::from_bits(pb[0] as u32), y: f32::from_bits(pb[1] as u32) };
+                    tl.update(&mut v, c[3].as_i64().unwrap() as f32 * TICK);
+                    exp_b = bits(v.x, v.y); evals += 1;
+                }
+                if exp_a != got_a || (cfg["hasb"].as_bool().unwrap() && exp_b != got_b) {
+                    fail = Some(json!({"world": wi + 1, "frame": fi + 1, "cfg": cfg, "ord": cand["ord"], "predA": ca, "predB": cb,
+                        "expA": exp_a, "gotA": got_a, "expB": exp_b, "gotB": got_b, "frame_rec": fr}));
+                    break;
+                }
+                pa = got_a; pb = got_b; hist_a.push(pa); prev_ca = ca.clone(); prev_cb = cb.clone();
+                checked += 1;
+            }
+            if fail.is_none() { ok_any = true; break; } else if first_fail.is_none() { first_fail = fail; }
+        }
+        if !ok_any { mism.push(first_fail.unwrap()); }
+    }
+    json!({"worlds": worlds.len(), "frames_checked": checked, "timeline_evaluations": evals, "mismatches": mism.len(), "first": mism.into_iter().take(5).collect::<Vec<_>>()})
+}
+
+fn main() {
+    let args: Vec<String> = std::env::args().collect();
+    match args.get(1).map(|s| s.as_str()).unwrap_or("") {
+        "drive" => println!("{}", drive(args[2].parse().unwrap(), args[3].parse().unwrap(), args[4].parse().unwrap(), &args[5])),
+        "drive-file" => println!("{}", drive_file(&args[2], &args[3])),
+        "judge" => println!("{}", judge(&args[2], &args[3])),
+        _ => { eprintln!("usage: harness_bevy drive <seed> <worlds> <frames> <out> | judge <trace> <tlc-output>"); std::process::exit(2); }
+    }
+}
